@@ -216,6 +216,7 @@ func main() {
 	}
 	res.Counters["panics"] = st.Panics
 	res.Counters["expected-panics"] = st.ExpPanics
+	res.Counters["bystander-world-batch-ops-inside-callbacks"] = st.BystanderOps
 	res.Counters["rejected-calls-through-the-running-ops-object"] = st.NestedSameObject
 	res.Counters["sweeps"] = st.Sweeps
 	res.Counters["entity-checks"] = st.EntChecks
